@@ -147,6 +147,18 @@ func checkC09(p *core.Program, r *core.Report) {
 				}
 			}
 		}
+		// U: the decode of the message failed (err != nil on the result of json.Unmarshal)
+		if bo.Op == token.EQL || bo.Op == token.NEQ {
+			var other ssa.Value
+			if core.IsNilConst(bo.Y) {
+				other = bo.X
+			} else if core.IsNilConst(bo.X) {
+				other = bo.Y
+			}
+			if call, ok := other.(*ssa.Call); ok && core.CalleeName(&call.Call) == "encoding/json.Unmarshal" {
+				return "U", truth == (bo.Op == token.NEQ), nil
+			}
+		}
 		// N: ptr == nil where ptr is *string
 		if bo.Op == token.EQL || bo.Op == token.NEQ {
 			var other ssa.Value
@@ -381,6 +393,15 @@ func checkC09(p *core.Program, r *core.Report) {
 		eKnown, eVal := false, false
 		mKnown, mVal := false, false
 		nKnown, nVal := false, false
+		uFailed := false
+		for _, it := range items {
+			if it.Cond == nil || it.resOf != nil {
+				continue
+			}
+			if a, val, _ := atomOfX(it); a == "U" && val {
+				uFailed = true
+			}
+		}
 		for i, it := range items {
 			if storeAt >= 0 && i > storeAt {
 				break
@@ -416,6 +437,9 @@ func checkC09(p *core.Program, r *core.Report) {
 			if errAt >= 0 && errAt < approveAt {
 				bad["approve-after-error"] = "a path takes the error exit and still approves"
 			}
+			if uFailed {
+				bad["approve-with-decode-error"] = "a path on which decoding the access-methods message failed goes on to approve (the error is tolerated for some error kinds): a member of the wrong JSON type leaves a non-nil but empty id behind, which passes the missing-id check - with no pinned id the handshake completes and the application is told the SHIP ID is empty"
+			}
 		} else {
 			if reports > 0 && errAt < 0 {
 				// reported but neither approved nor failed
@@ -440,7 +464,7 @@ func checkC09(p *core.Program, r *core.Report) {
 	if !complete {
 		r.Fail(R1, hn+" paths", p.Pos(h.Pos()), "too many paths to enumerate")
 	}
-	for _, k := range []string{"approve-without-id-check", "approve-without-match", "new-id-report", "known-id-report", "approve-after-error", "report-without-approve", "mismatch-not-rejected"} {
+	for _, k := range []string{"approve-without-id-check", "approve-without-match", "new-id-report", "known-id-report", "approve-after-error", "approve-with-decode-error", "report-without-approve", "mismatch-not-rejected"} {
 		if msg, isBad := bad[k]; isBad {
 			r.Fail(R1, hn+" "+k, p.Pos(h.Pos()), msg)
 		} else {
@@ -486,8 +510,18 @@ func checkC09(p *core.Program, r *core.Report) {
 		c := core.Common(in)
 		f0, _ := core.LoadedField(c.Args[0])
 		f1, _ := core.LoadedField(c.Args[1])
-		okID := f1 == fID
-		if !okID {
+		okID := false
+		if f1 == fID {
+			// a load of the stored id counts only when it reads what was just stored (a copy taken before the store
+			// still holds the old - empty - value)
+			if ld, ok := core.Canon(c.Args[1]).(ssa.Instruction); ok {
+				core.EachInstr(reportFn, func(y ssa.Instruction) {
+					if core.IsFieldStore(y, fID) && core.Dominates(y, ld) {
+						okID = true
+					}
+				})
+			}
+		} else {
 			if u, ok := core.Canon(c.Args[1]).(*ssa.UnOp); ok && u.Op == token.MUL {
 				okID = true // *presented
 			}
